@@ -225,6 +225,15 @@ func (g *Engine) runPath(s *Solver, fn *ssa.Function, cfg *HarnessCfg, prefix []
 	if (end.kind == EndOK || end.kind == EndHalt) && (wantSample || pin != nil) {
 		r.Sample = e.sample(end.kind)
 	}
+	if end.kind == EndPanic && pin == nil {
+		// a panic reachable within the bounds violates the implicit "never
+		// panics" obligation of every harness; it is confirmed by native replay
+		out := AssertOutcome{Label: "no-panic", Verdict: Unknown, Inconcl: "panic path without a model: " + end.msg}
+		if v, vec, obs, _ := e.query(e.tb.True(), true); v == Sat {
+			out = AssertOutcome{Label: "no-panic", Verdict: Sat, Vector: vec, Observes: append(obs, "panic: "+trunc(end.msg, 300))}
+		}
+		r.Asserts = append(r.Asserts, out)
+	}
 	return r
 }
 
